@@ -2,6 +2,7 @@ package main
 
 import (
 	"fmt"
+	"go/token"
 	"strings"
 
 	"golang.org/x/tools/go/ssa"
@@ -20,6 +21,75 @@ func runC07(c *Ctx) {
 	c.Rule("C07.FLAG", "WHO: the flush-failure flag is set only by markFlushFailure and cleared only by ResetFlushFailure")
 	c.Rule("C07.PURGE", "DOM: every call of PurgeAll / PurgeOlderThan / PurgeInactive outside the WAL package is reached only where HasFlushFailure() returned false")
 	c.Rule("C07.RESET", "DOM: ResetFlushFailure is called only where the recovery call returned a nil error")
+	c.Rule("C07.STICKY", "FLOW: the error FlushAll returns is sticky: every value that can reach the return is either the initial nil or was assigned where that value was known non-nil, so a buffer that flushes fine after one that failed cannot overwrite the failure (FlushAll is the BeforeDelete hook of WAL recovery: a nil result deletes the WAL file)")
+	if fn := c.MustFunc("C07.STICKY", "(*internal/ingest.ArrowBuffer).FlushAll"); fn != nil {
+		n := 0
+		for _, in := range instrs(fn, false) {
+			r, ok := in.(*ssa.Return)
+			if !ok || len(r.Results) != 1 {
+				continue
+			}
+			n++
+			var bad []string
+			seen := map[ssa.Value]bool{}
+			var rec func(v ssa.Value, at *ssa.BasicBlock)
+			rec = func(v ssa.Value, at *ssa.BasicBlock) {
+				if v == nil {
+					return
+				}
+				if ph, ok := v.(*ssa.Phi); ok {
+					if seen[v] {
+						return
+					}
+					seen[v] = true
+					for k, e := range ph.Edges {
+						rec(e, ph.Block().Preds[k])
+					}
+					return
+				}
+				if isNilConst(v) {
+					return
+				}
+				// a concrete value: known non-nil where it flows in?
+				okv := false
+				for _, f := range append(factsAtBlock(at), blockEdgeFactsDirect(at.Idom(), at)...) {
+					if f.Kind == factNotNil && f.Val == v {
+						okv = true
+					}
+				}
+				if at != nil {
+					if li, ok := lastIf(at); ok {
+						_ = li
+					}
+				}
+				if !okv {
+					bad = append(bad, fmt.Sprintf("%s (line %d)", v.Name(), c.P.Line(v.Pos())))
+				}
+			}
+			res := unspill(r, r.Results[0])
+			// a named result spilled to a cell: every store into it
+			if ld, ok := res.(*ssa.UnOp); ok && ld.Op == token.MUL {
+				if a, ok := ld.X.(*ssa.Alloc); ok {
+					for _, ref := range *a.Referrers() {
+						if st, ok := ref.(*ssa.Store); ok && st.Addr == ssa.Value(a) {
+							if isNilConst(st.Val) {
+								continue
+							}
+							if !guardedNotNilAt(st, st.Val) {
+								bad = append(bad, fmt.Sprintf("store at line %d", c.P.Line(st.Pos())))
+							}
+						}
+					}
+					res = nil
+				}
+			}
+			if res != nil {
+				rec(res, r.Block())
+			}
+			c.Check(len(bad) == 0, "C07.STICKY", fmt.Sprintf("FlushAll|return#%d", n), r.Pos(), "the returned error only ever takes values known to be non-nil (or the initial nil)", "FlushAll's result can be overwritten by a later buffer's outcome ("+strings.Join(bad, ", ")+"): one refused write followed by a successful one returns nil — WAL recovery then deletes the file although the failed buffer's rows were dropped from memory")
+		}
+		c.Check(n >= 1, "C07.STICKY", "FlushAll|returns", fn.Pos(), "return found", "no return found")
+	}
 	c.Rule("C07.PRIO", "CONST: shutdown priorities order buffer flush < wal-purge hook < WAL close")
 
 	// ---- DROP
@@ -284,3 +354,8 @@ func runC07(c *Ctx) {
 }
 
 func c07Const(p *Prog, pkg, name string) int64 { return c05ConstByte(p, pkg, name) }
+
+// guardedNotNilAt: instruction in executes only where v != nil.
+func guardedNotNilAt(in ssa.Instruction, v ssa.Value) bool {
+	return hasFact(factsAt(in), factNotNil, v)
+}
